@@ -21,12 +21,12 @@ import (
 	"time"
 
 	c4eapp "github.com/chain4energy/c4e-chain/app"
+	appparams "github.com/chain4energy/c4e-chain/app/params"
 	distrtypes "github.com/chain4energy/c4e-chain/x/cfedistributor/types"
 	mintertypes "github.com/chain4energy/c4e-chain/x/cfeminter/types"
 	sigkeeper "github.com/chain4energy/c4e-chain/x/cfesignature/keeper"
 	sigtypes "github.com/chain4energy/c4e-chain/x/cfesignature/types"
 	vesttypes "github.com/chain4energy/c4e-chain/x/cfevesting/types"
-	appparams "github.com/chain4energy/c4e-chain/app/params"
 	"github.com/cosmos/cosmos-sdk/crypto/keys/secp256k1"
 	"github.com/cosmos/cosmos-sdk/simapp"
 	"github.com/cosmos/cosmos-sdk/simapp/helpers"
@@ -648,6 +648,11 @@ func runAppCase(seed uint64, idx int, rep *Report, profile string, traceDir stri
 					pred += ".K6"
 				}
 				rep.Eval(pred, d1 == d2, idx, bIdx, fmt.Sprintf("signature module store: %d bytes before export, %d after import", len(d1), len(d2)))
+				// no custom-module data lost: the raw KV stores of the minter, distributor and vesting modules are byte-identical
+				for _, sk := range []string{mintertypes.StoreKey, distrtypes.StoreKey, vesttypes.StoreKey} {
+					a, b := fullStoreDump(app, sk), fullStoreDump(twin.app, sk)
+					rep.Eval("C12.store_identical_after_import."+sk, a == b, idx, bIdx, storeDiff(a, b))
+				}
 				rep.Count("export_import")
 			}()
 		}
@@ -672,6 +677,49 @@ func runAppCase(seed uint64, idx int, rep *Report, profile string, traceDir stri
 		flush(idx)
 	}
 	return cases
+}
+
+func fullStoreDump(app *c4eapp.App, storeKey string) string {
+	ctx := app.BaseApp.NewContext(true, tmproto.Header{Height: app.LastBlockHeight()})
+	st := ctx.KVStore(app.GetKey(storeKey))
+	it := st.Iterator(nil, nil)
+	defer it.Close()
+	var sb strings.Builder
+	for ; it.Valid(); it.Next() {
+		sb.WriteString(hex.EncodeToString(it.Key()) + "=" + hex.EncodeToString(it.Value()) + ";")
+	}
+	return sb.String()
+}
+
+// storeDiff names the first key whose value differs or that exists on one side only.
+func storeDiff(a, b string) string {
+	if a == b {
+		return ""
+	}
+	ma, mb := map[string]string{}, map[string]string{}
+	for _, e := range strings.Split(a, ";") {
+		if kv := strings.SplitN(e, "=", 2); len(kv) == 2 {
+			ma[kv[0]] = kv[1]
+		}
+	}
+	for _, e := range strings.Split(b, ";") {
+		if kv := strings.SplitN(e, "=", 2); len(kv) == 2 {
+			mb[kv[0]] = kv[1]
+		}
+	}
+	for k, v := range ma {
+		if w, ok := mb[k]; !ok {
+			return fmt.Sprintf("key %s (value %.120s) is in the original store, not in the restored one (%d / %d keys)", k, v, len(ma), len(mb))
+		} else if w != v {
+			return fmt.Sprintf("key %s: original %.120s restored %.120s", k, v, w)
+		}
+	}
+	for k, v := range mb {
+		if _, ok := ma[k]; !ok {
+			return fmt.Sprintf("key %s (value %.120s) is in the restored store only (%d / %d keys)", k, v, len(ma), len(mb))
+		}
+	}
+	return "stores differ"
 }
 
 func rawStoreDump(app *c4eapp.App, storeKey string) string {
